@@ -6,6 +6,14 @@ import re
 
 VERIF = os.path.dirname(os.path.dirname(os.path.abspath(__file__)))
 NOTES = {
+    'C04-13': 'round 8, first missed: no link sat inside svg / template / rp / math; such containers added to the link pages',
+    'C16-14': 'round 8, first missed: no link or image was the fallback content of video / audio / object; wrappers added',
+    'C15-13': 'round 8, first missed: no tag had an attribute value wrapped over several lines; added to block and list item attributes',
+    'C17-13': 'round 8, first missed: the purity workload had no element whose name has a separable tag name as a prefix (pre, picture, param, progress, listing); added, and <pre> joined the generated blocks',
+    'C05-13': 'round 8, first missed: the invisible edits only used "<!--" comments; processing instructions, declarations, CDATA and blank-name end tags (all comment nodes to the parser) added',
+    'C09-14': 'round 8, first missed: "deleted" was read off the <del> around the element; now every live script/style of the combined view must be one of the new page (counted), and scripts directly inside lists are hand pairs',
+    'C20-14': 'round 8, first missed: never more diffs in flight than the pool runs at once; scenario "queued, graceful" (9 diffs, 2 workers) added',
+    'C02-9': 'caught by generated pages only in some sweeps (missed once in a later sweep): its example is now a hand-picked pair',
     'C01-2': 'first missed: pages whose body opens with script/style were not generated',
     'C03-1': 'first missed: the spacer cap was only reached by 900-element pages of one shape; small-cap pass and a second big-page shape added',
     'C03-2': 'first missed: no edit replaced a link by its spelled-out address; unlink edit and hand pairs added',
@@ -89,15 +97,15 @@ def main():
     i = s.index('## 11. Seeded changes')
     head = '''## 11. Seeded changes and reverse fixes: which check catches what
 
-%d breaking changes were made by fresh sub-agents in seven rounds (2 per property per round from
-round 2 on; rounds 4 to 7 asked for changes that need something specific to manifest: an interleaving, a
+%d breaking changes were made by fresh sub-agents in eight rounds (2 per property per round from
+round 2 on; rounds 4 to 8 asked for changes that need something specific to manifest: an interleaving, a
 multi-request history, an unusual input, two cooperating edits), each agent given only the text of
 one property and a scratch worktree under `/tmp`; each change was confirmed by me
 (`harness/confirm_seed.sh`: the agent's demonstration passes on the unchanged tree and
 fails with the change; the 81 tests still pass) and archived under `seeded/<id>/`.
 `harness/seed_sweep.py` applies each in turn to `/repo`, runs the quick check of its
 property, records the failing obligations (`seeded/SWEEP.json`, `meta.json: caught_by`)
-and undoes it. **%d of %d are caught by the quick tier; all 18 applicable reverse fixes are caught (the reverse of fix 19 is kept as `regress/superseded-…`: since fix 23 made `iframe` an opaque unit the branch it removes is unreachable, and reverting it no longer breaks anything).**
+and undoes it. **%d of %d are caught by the quick tier; all %d applicable reverse fixes are caught (the reverse of fix 19 is kept as `regress/superseded-…`: since fix 23 made `iframe` an opaque unit the branch it removes is unreachable, and reverting it no longer breaks anything).**
 The sweep of all changes runs as six shards side by side, each on its own snapshot of `/verif` and of the
 repository (`harness/sweep_shard.sh` under `vp run --with-repo`, 35 minutes), never on `/repo` while a check runs there.
 Seeds that an earlier version of a check missed (or caught by correspondence only) are
@@ -106,7 +114,7 @@ property, never a special case for the seed.
 
 | seed | what it breaks (agent's summary, truncated) | caught by (VIOLATION lines) | note |
 |---|---|---|---|
-''' % (n, n - missed, n)
+''' % (n, n - missed, n, len(rrows))
     tail = '''
 
 Reverse patches of the `fix:` commits (`regress/`, kept applicable to HEAD):
